@@ -1310,7 +1310,7 @@ func main() {
 	}
 	scale := hx.ArgInt(a, "scale", 3)
 	if thorough {
-		scale *= 8
+		scale *= 30
 	}
 	g.genShare(150 * scale)
 	g.genAgg(60 * scale)
